@@ -40,7 +40,7 @@ WORLDS = {
 # freshly allocated, C-ordered gradient); the two prefix statements are part of every history of that world
 WORLDS["x22F"] = [("x", (2, 2), 0, False, "F"), ("y", (2,), 7, False)]
 PREFIX = {"x22F": [("view", "v", "x", "T"), ("view", "vv", "v", "flat")]}
-CFG_F = dict(CFG, views=("T",), ops1=("mul2",), ops2=("matmul", "mul"), set_idx=(), iops=("iadd",), outs=(), setshape={}, max_live=6)
+CFG_F = dict(CFG, views=("T",), ops1=("mul2",), ops2=("matmul", "mul"), set_idx=(), iops=("iadd",), outs=(), setshape={}, max_live=6, fails=True)
 BOUNDS = {"quick": [("x3", 4), ("x22", 3), ("x22F", 3)], "thorough": [("x3", 5), ("x22", 4), ("x22F", 4)]}
 
 
